@@ -100,7 +100,10 @@ func findPkgPath(dirPath *pathlib.Path) (string, error) {
 	// Let the go.mod parser find the module path: the directive may be
 	// separated by tabs or several spaces, quoted, followed by a comment or
 	// written in block form.
-	moduleName := modfile.ModulePath(fileBytes)
+	moduleName := ""
+	if modFile, err := modfile.ParseLax(goModFile.String(), fileBytes, nil); err == nil && modFile.Module != nil {
+		moduleName = modFile.Module.Mod.Path
+	}
 	if moduleName == "" {
 		return "", stackerr.NewStackErr(ErrGoModInvalid)
 	}
